@@ -479,22 +479,34 @@ pub struct TlsConnector { pub id: Ghost<int> }
 pub struct SharedExec { pub id: Ghost<int> }
 pub struct IpAddr { pub id: Ghost<int> }
 impl Clone for SharedExec { #[verifier::external_body] fn clone(&self) -> (r: Self) ensures r == *self { unimplemented!() } }
-// A-hyper-01: hyper::client::conn::http2::Builder: the HTTP/2 settings of a connection; opaque here (no property speaks of them)
-pub struct Builder<E> { pub ex: E, pub id: Ghost<int> }
+// A-hyper-01: hyper::client::conn::http2::Builder: the HTTP/2 settings of a connection, as a ghost record of what the setters were
+// given (what hyper does with them - e.g. noticing a dead peer through keep-alive pings - is hyper's business)
+pub struct H2Cfg { pub stream_window: Option<u32>, pub conn_window: Option<u32>, pub ka_interval: Option<Duration>, pub ka_timeout: Option<Duration>,
+                   pub ka_while_idle: Option<bool>, pub adaptive: Option<bool>, pub max_header_list: Option<u32> }
+pub struct Builder<E> { pub ex: E, pub cfg: Ghost<H2Cfg> }
 pub struct TokioTimer { pub x: u8 }
 impl TokioTimer { pub fn new() -> (r: Self) { TokioTimer { x: 0 } } }
 impl<E> Builder<E> {
-    #[verifier::external_body] pub fn new(exec: E) -> (r: Self) { unimplemented!() }
-    #[verifier::external_body] pub fn initial_stream_window_size(&mut self, sz: Option<u32>) -> (r: &mut Self) { unimplemented!() }
-    #[verifier::external_body] pub fn initial_connection_window_size(&mut self, sz: Option<u32>) -> (r: &mut Self) { unimplemented!() }
-    #[verifier::external_body] pub fn keep_alive_interval(&mut self, d: Option<Duration>) -> (r: &mut Self) { unimplemented!() }
-    #[verifier::external_body] pub fn timer(&mut self, t: TokioTimer) -> (r: &mut Self) { unimplemented!() }
-    #[verifier::external_body] pub fn keep_alive_timeout(&mut self, d: Duration) -> (r: &mut Self) { unimplemented!() }
-    #[verifier::external_body] pub fn keep_alive_while_idle(&mut self, b: bool) -> (r: &mut Self) { unimplemented!() }
-    #[verifier::external_body] pub fn adaptive_window(&mut self, b: bool) -> (r: &mut Self) { unimplemented!() }
-    #[verifier::external_body] pub fn max_header_list_size(&mut self, n: u32) -> (r: &mut Self) { unimplemented!() }
+    #[verifier::external_body] pub fn new(exec: E) -> (r: Self)
+        ensures r.ex == exec, r.cfg@ == (H2Cfg { stream_window: None, conn_window: None, ka_interval: None, ka_timeout: None, ka_while_idle: None, adaptive: None, max_header_list: None }) { unimplemented!() }
+    #[verifier::external_body] pub fn initial_stream_window_size(&mut self, sz: Option<u32>) -> (r: &mut Self)
+        ensures (*r).ex == old(self).ex, (*r).cfg@ == (H2Cfg { stream_window: sz, ..old(self).cfg@ }), *final(r) == *final(self) { unimplemented!() }
+    #[verifier::external_body] pub fn initial_connection_window_size(&mut self, sz: Option<u32>) -> (r: &mut Self)
+        ensures (*r).ex == old(self).ex, (*r).cfg@ == (H2Cfg { conn_window: sz, ..old(self).cfg@ }), *final(r) == *final(self) { unimplemented!() }
+    #[verifier::external_body] pub fn keep_alive_interval(&mut self, d: Option<Duration>) -> (r: &mut Self)
+        ensures (*r).ex == old(self).ex, (*r).cfg@ == (H2Cfg { ka_interval: d, ..old(self).cfg@ }), *final(r) == *final(self) { unimplemented!() }
+    #[verifier::external_body] pub fn timer(&mut self, t: TokioTimer) -> (r: &mut Self)
+        ensures *r == *old(self), *final(r) == *final(self) { unimplemented!() }
+    #[verifier::external_body] pub fn keep_alive_timeout(&mut self, d: Duration) -> (r: &mut Self)
+        ensures (*r).ex == old(self).ex, (*r).cfg@ == (H2Cfg { ka_timeout: Some(d), ..old(self).cfg@ }), *final(r) == *final(self) { unimplemented!() }
+    #[verifier::external_body] pub fn keep_alive_while_idle(&mut self, b: bool) -> (r: &mut Self)
+        ensures (*r).ex == old(self).ex, (*r).cfg@ == (H2Cfg { ka_while_idle: Some(b), ..old(self).cfg@ }), *final(r) == *final(self) { unimplemented!() }
+    #[verifier::external_body] pub fn adaptive_window(&mut self, b: bool) -> (r: &mut Self)
+        ensures (*r).ex == old(self).ex, (*r).cfg@ == (H2Cfg { adaptive: Some(b), ..old(self).cfg@ }), *final(r) == *final(self) { unimplemented!() }
+    #[verifier::external_body] pub fn max_header_list_size(&mut self, n: u32) -> (r: &mut Self)
+        ensures (*r).ex == old(self).ex, (*r).cfg@ == (H2Cfg { max_header_list: Some(n), ..old(self).cfg@ }), *final(r) == *final(self) { unimplemented!() }
 }
-impl<E> Clone for Builder<E> { #[verifier::external_body] fn clone(&self) -> (r: Self) { unimplemented!() } }
+impl<E> Clone for Builder<E> { #[verifier::external_body] fn clone(&self) -> (r: Self) ensures r == *self { unimplemented!() } }
 // A-tonic-link-43: Reconnect::new makes an idle, never-connected service around the connection maker and target it is given, lazy
 // exactly if asked: under contract in unit reconnect (N1)
 pub struct Reconnect<M, Target> { pub mk_service: M, pub target: Target, pub is_lazy: bool }
@@ -548,7 +560,7 @@ def client_stack(u):
     u.fn(EP, 'uri', within='impl Endpoint', header='impl Endpoint {', close=True, display='Endpoint::uri', props=['C14', 'C03'],
          ensures=[Clause('E1_the_uri_of_the_endpoint_or_the_fallback_for_a_socket_path', '*r == (match self.uri { EndpointType::Uri(u) => u, EndpointType::Uds(_) => self.fallback_uri })', ['C14', 'C03'])])
     u.fn(CN, 'new', within='impl<C> MakeSendRequestService<C>', header='impl<C> MakeSendRequestService<C> {', close=True, display='MakeSendRequestService::new', props=['C14'],
-         ensures=[Clause('S1_holds_the_connector_it_is_given', 'r.connector == connector && r.executor == executor', ['C14'])])
+         ensures=[Clause('S1_holds_the_connector_and_the_connection_settings_it_is_given', 'r.connector == connector && r.executor == executor && r.settings == settings', ['C14'])])
     gen = [lambda t: t.sub_code('R12', r'\bfn new<C>\(', 'fn new('), lambda t: t.sub_code('R12', r'\bwhere\b[^{]*', '')]
     core = 'under_limits(r.inner.svc.inner.inner.inner)'
     u.fn(CN, 'new', within='impl Connection', header='impl<C> Connection<ClientStack<C>> {', close=True, display='Connection::new', props=['C09', 'C14', 'C03'],
@@ -563,6 +575,9 @@ def client_stack(u):
          ensures=[Clause('K1_the_endpoint_timeout_is_the_configured_timeout_of_every_call', 'r.inner.svc.inner.inner.server_timeout == endpoint.timeout', ['C09']),
                   Clause('K2_the_channel_reconnects_to_the_endpoint_uri_through_the_connector_lazily_exactly_if_asked',
                          '%s.is_lazy == is_lazy && %s.target == (match endpoint.uri { EndpointType::Uri(u) => u, EndpointType::Uds(_) => endpoint.fallback_uri }) && %s.mk_service.connector == connector' % (core, core, core), ['C14']),
+                  Clause('K4_connections_are_made_with_the_keep_alive_settings_of_the_endpoint',
+                         '''({ let c = %s.mk_service.settings.cfg@; c.ka_interval == endpoint.http2_keep_alive_interval
+                             && c.ka_timeout == endpoint.http2_keep_alive_timeout && c.ka_while_idle == endpoint.http2_keep_alive_while_idle })''' % core, ['C14']),
                   Clause('K3_calls_are_sent_to_the_configured_origin_else_to_the_endpoint_uri',
                          'r.inner.svc.scheme == origin_of(endpoint).scheme && r.inner.svc.authority == origin_of(endpoint).authority', ['C03'])])
     hdr = 'impl<S: Service<Request<Body>>> Connection<S> where S::Error: IntoBoxError {'
